@@ -2,9 +2,19 @@ package vh
 
 import (
 	"fmt"
+	"net/url"
 	"strings"
 	"time"
 )
+
+// BackendIDFor is the backend ID the harness's agents use against the proxy at proxyURL: unique per
+// proxy port, so that a stray agent left over from something else on this machine is recognisable.
+func BackendIDFor(proxyURL string) string {
+	if u, err := url.Parse(proxyURL); err == nil && u.Port() != "" {
+		return "vb-" + u.Port()
+	}
+	return "vb-0"
+}
 
 // StartServer starts the stand-alone inverting proxy binary and returns its address.
 func StartServer(env ...string) (*Proc, string, error) {
@@ -24,7 +34,7 @@ func StartServer(env ...string) (*Proc, string, error) {
 
 // StartAgent starts the agent binary against proxyURL (must end in "/") and the backend address.
 func StartAgent(meta *FakeMeta, proxyURL, backendAddr string, extraArgs []string, env ...string) (*Proc, error) {
-	args := append([]string{"--proxy=" + proxyURL, "--backend=testBackend", "--host=" + backendAddr}, extraArgs...)
+	args := append([]string{"--proxy=" + proxyURL, "--backend=" + BackendIDFor(proxyURL), "--host=" + backendAddr}, extraArgs...)
 	return StartProc("agent", Bin("agent"), args, append(meta.Env(), env...)...)
 }
 
@@ -44,6 +54,10 @@ func StartStack(backendAddr string, agentArgs []string, env ...string) (*Stack, 
 		s.Stop()
 		return nil, err
 	}
+	own := BackendIDFor("http://" + s.ProxyAddr + "/")
+	s.Server.Watch("foreign-agent", func(l string) bool {
+		return strings.Contains(l, "Received new backend") && !strings.Contains(l, own)
+	})
 	s.Agent, err = StartAgent(s.Meta, "http://"+s.ProxyAddr+"/", backendAddr, agentArgs, env...)
 	if err != nil {
 		s.Stop()
@@ -61,6 +75,19 @@ func (s *Stack) Stop() {
 	if s.Meta != nil {
 		s.Meta.Close()
 	}
+}
+
+// Foreign reports whether an agent other than the harness's own has talked to the proxy (a stray
+// process on this machine that happens to be configured with this port): results are then meaningless.
+func (s *Stack) Foreign() bool { return s.Server != nil && s.Server.Watched("foreign-agent") > 0 }
+
+// Discount turns a failure into an inconclusive outcome when a stray agent has talked to the proxy.
+func (s *Stack) Discount(o Outcome) Outcome {
+	if o.Err != nil && s.Foreign() {
+		o.Inconclusive = "a foreign agent (not started by the harness) polled the proxy; discarded failure: " + o.Err.Error()
+		o.Err = nil
+	}
+	return o
 }
 
 // Health reports a dead process or race/fatal/panic output of either binary.
